@@ -40,8 +40,17 @@ parselocalpart(const char *const addr)
 	 */
 	while (*t && (*t != '@')) {
 		if (*t == '"') {
+			/* RfC 5321, section 4.1.2: a quoted string is the entire local part,
+			 * it can not be mixed with atoms */
+			if (quoted ? ((*(t + 1) != '@') && (*(t + 1) != '\0')) : (t != addr))
+				return -1;
 			quoted = 1 - quoted;
 		} else if (!quoted) {
+			/* RfC 5321, section 4.1.2: Dot-string = Atom *("." Atom), i.e. no
+			 * leading, trailing, or consecutive dots */
+			if ((*t == '.') && ((t == addr) || (*(t - 1) == '.') ||
+					(*(t + 1) == '@') || (*(t + 1) == '\0')))
+				return -1;
 			/* these characters are allowed without quoting */
 			if (!(((*t >= 'a') && (*t <= 'z')) || ((*t >= 'A') && (*t <= 'Z')) || (*t == '.') ||
 						((*t >= '0') && (*t <= '9')) || (*t == '!') || ((*t >= '#') && (*t <= '\'')) ||
